@@ -25,6 +25,25 @@ TRUSTED = [
 BASE_CFG = 'deny zap "NOZAP"\nask askcmd\nallow-redirect /jail/out/*\ndeny-redirect /jail/secret/*\n'
 RULES = ["allow mytool", "allow mytool *", "allow mytool|", "allow my*", "allow *", "allow **", "allow mytool  deploy", "allow mytool d*"]
 MATCHED = ["mytool", "mytool deploy", "mytool deploy prod", "X=1 mytool deploy"]
+# one family per way the analyser can reach a verdict for the matched command: unknown program (above), conditional
+# test commands, handler CLIs, programs the built-in knowledge asks about, programs it already allows, wrappers, shells,
+# directory changes, assignment prefixes.  (rules that match, commands they match)
+FAMILIES = [
+    (["allow test", "allow test *", "allow test -f *"], ["test -f x", "test -f x -a -n a"]),
+    (["allow [ *", "allow [ -n *"], ["[ -n a ]", "[ -n a -a -f x ]"]),
+    (["allow git push", "allow git *"], ["git push", "git push origin main"]),
+    (["allow rm", "allow rm *"], ["rm x", "rm -rf build"]),
+    (["allow ls", "allow ls *"], ["ls", "ls -la"]),
+    (["allow timeout *", "allow timeout 5 mytool"], ["timeout 5 mytool", "timeout 5 mytool deploy"]),
+    (["allow nice *", "allow mytool"], ["nice mytool", "nice -n 3 mytool"]),
+    (["allow env *"], ["env mytool", "env X=1 mytool deploy"]),
+    (["allow sh -c *", "allow sh *"], ["sh -c mytool", "sh -c 'mytool deploy'"]),
+    (["allow python3 *"], ["python3 s.py", "python3 -c pass"]),
+    (["allow cd *", "allow cd"], ["cd sub", "cd /"]),
+    (["allow command *", "allow mytool"], ["command mytool", "command -p mytool deploy"]),
+    (["allow ./tool *", "allow ./tool"], ["./tool", "./tool run"]),
+    (["allow mytool"], ["A=1 B=2 mytool", "a[0]=v mytool deploy", "LIBDIRS+=:/x mytool"]),
+]
 
 
 def run(tier, seed, replay=None):
@@ -64,7 +83,7 @@ def run(tier, seed, replay=None):
         cmd = other
         for cut in (" >", " 2>", " $(", " <(", " `", ' "'):
             cmd = cmd.split(cut)[0]
-        inner = [m for m in re.findall(r"\$\(([^()$]*)\)|<\(([^()]*)\)|`([^`]*)`", other)]
+        inner = [m for m in re.findall(r"\$\(([^()$]*)\)|[<>]\(([^()]*)\)|`([^`]*)`", other)]
         inner = [x for t in inner for x in t if x]
         if rule_matches(rule, cmd) or any(rule_matches(rule, i) for i in inner):
             # judge with the broad rule's effect on OTHER commands neutralised is not expressible by
@@ -78,7 +97,7 @@ def run(tier, seed, replay=None):
         cfg1 = parse_config(BASE_CFG + rule + "\n")
         d1 = an.analyze(text, cfg1, Path(cwd))
         v1 = d1.action
-        if v1 == "ask" and d1.reason.startswith("parse error"):
+        if v1 == "ask" and lib.parser_rejects(text):
             # the vendored parser rejects some valid programs (e.g. ";;&" before esac): the whole line is then
             # asked with or without the rule - nothing is approved, no rule is consulted, nothing to mask
             out.count("skipped", "parser-rejected")
@@ -102,7 +121,10 @@ def run(tier, seed, replay=None):
             out.sample({"rule": rule, "program": text, "verdict": v1, "floor": floor})
 
     rules = RULES if tier == "thorough" else RULES[:5]
-    for rule, m in itertools.product(rules, MATCHED):
+    pairs = list(itertools.product(rules, MATCHED))
+    for frules, fmatched in FAMILIES:
+        pairs += list(itertools.product(frules if tier == "thorough" else frules[:2], fmatched if tier == "thorough" else fmatched[:1]))
+    for rule, m in pairs:
         # siblings in every composition form
         for s in sibs:
             for tmpl in ("{M}; {S}", "{S}; {M}", "{M} && {S}", "{S} || {M}", "{M} | {S}", "{S} | {M}", "{M} & {S}", "{M}\n{S}",
